@@ -37,7 +37,7 @@ def _burrow_ite[T: Base](expr: T) -> T:
         return expr
 
     matches = [old_true.args[i] is old_false.args[i] for i in range(len(old_true.args))]
-    if matches.count(True) != 1 or all(matches):
+    if matches.count(False) != 1:
         # TODO: handle multiple differences for multi-arg ast nodes
         # print("wrong number of matches:",matches,old_true,old_false)
         return expr
